@@ -96,7 +96,7 @@ func (t *TimerBasedElectionTrigger) CalcTimeout(view primitives.View) time.Durat
 }
 
 func triggerElections(electionChannel chan *interfaces.ElectionTrigger, height primitives.BlockHeight, view primitives.View, triggerCancelled chan struct{}, electionsFunc func()) {
-	verifhook.At("et.fire") // no-op unless built with tag verif
+	verifhook.AtHV("et.fire", uint64(height), uint64(view)) // no-op unless built with tag verif
 	select {
 	case <-triggerCancelled:
 		return
